@@ -10,11 +10,12 @@ consumer entities).  Drivers:
                latency {0, 0.25 s}; a drain phase after every sequence (props/c19_mq.py).
 * ``topic``    Topic: every sequence over {publish, two concurrent publishes, publish_sync,
                subscribe / unsubscribe per subscriber} x subscribers {2,3} x latency {0, 0.25 s}.
-* ``eventlog`` EventLog: appends (single and concurrent) / reads / waits under every retention
+* ``eventlog`` EventLog: appends (single and concurrent, incl. key "" and key-less Append events) / reads / waits under every retention
                setting x partitions {1,2,3} (props/c19_stream.py).
-* ``group``    ConsumerGroup: every join/leave order of <= 3 members (quick: membership toggles, <= 6 ops;
-               thorough: toggles <= 7 ops and, incl. redundant joins / leaves, <= 5 ops) x 3 strategies x
-               partitions {1..4} x rebalance delay {shorter, longer than a tick}.
+* ``group``    ConsumerGroup: every join/leave order of <= 3 members incl. re-joins under the same name and quiet
+               ticks (quick: membership toggles + wait, <= 6 ops; thorough: <= 7 ops and, incl. redundant joins /
+               leaves, <= 4 ops) x 3 strategies x partitions {1..4} x rebalance delay {0, shorter, longer than a
+               tick}; ownership checked after every rebalance and whenever all rebalances have settled.
 * ``commit``   ConsumerGroup commit sequences incl. stale and late (non-owner) commits and polls, interleaved
                with rebalances incl. ownership round trips (a partition returning to a former owner).
 * ``outbox`` / ``idem`` / ``stream`` (thorough): OutboxRelay, IdempotencyStore, StreamProcessor.
